@@ -193,6 +193,32 @@ class Exit:
 
 
 # ------------------------------------------------------------------ the interpreter
+def local_names(fn: ast.FunctionDef) -> frozenset:
+    """Names bound by assignment somewhere in ``fn`` (its own scope only), minus parameters."""
+    out: set[str] = set()
+    declared: set[str] = set()
+
+    def walk(n: ast.AST) -> None:
+        for c in ast.iter_child_nodes(n):
+            if isinstance(c, (ast.FunctionDef, ast.AsyncFunctionDef, ast.Lambda, ast.ClassDef, ast.ListComp, ast.SetComp, ast.DictComp, ast.GeneratorExp)):
+                if isinstance(c, (ast.FunctionDef, ast.AsyncFunctionDef, ast.ClassDef)):
+                    out.add(c.name)
+                continue
+            if isinstance(c, (ast.Global, ast.Nonlocal)):
+                declared.update(c.names)
+            if isinstance(c, ast.Name) and isinstance(c.ctx, (ast.Store, ast.Del)):
+                out.add(c.id)
+            walk(c)
+
+    walk(fn)
+    params = {a.arg for a in fn.args.args + fn.args.kwonlyargs + fn.args.posonlyargs}
+    if fn.args.vararg:
+        params.add(fn.args.vararg.arg)
+    if fn.args.kwarg:
+        params.add(fn.args.kwarg.arg)
+    return frozenset(out - declared - params)
+
+
 class Flow:
     def __init__(
         self,
@@ -267,6 +293,10 @@ class Flow:
             if self.template and node.id not in _FREE_OK and node.id not in self.free_ok:
                 st = st.fork()
                 st.note("R5", f"name {node.id} read before assignment")
+            elif not self.template and node.id in st.env.get("__locals__", ()):
+                # a local of the interpreted function that no statement on this path has bound
+                st = st.fork()
+                st.note("R5", f"local {node.id} read before assignment (UnboundLocalError)")
             return [(st, self.named_opq(node.id))]
         if isinstance(node, ast.Attribute):
             out = []
@@ -1035,6 +1065,7 @@ class Flow:
                     raise self.unsupported(f"missing argument {n} for {label}")
         for ko, kd in zip(fn.args.kwonlyargs, fn.args.kw_defaults, strict=True):
             env[ko.arg] = kw[ko.arg] if ko.arg in kw else (_const_default(kd) if kd is not None else None)
+        env["__locals__"] = local_names(fn)
         saved_env = st.env
         saved_mc = self.modconst
         st = st.fork()
